@@ -429,7 +429,7 @@ func c10Generate(c *mon.Ctx) {
 	}
 
 	sr := c.SharedRng("steered-histories")
-	stride := c.N(3, 1)
+	stride := c.N(1, 1)
 
 	for i := 0; i+8 <= len(steered); i += 8 {
 		if (i/8)%stride != int(c.Seed%uint64(stride)) {
